@@ -118,8 +118,8 @@ impl<'ast> Visit<'ast> for AssignFinder {
                 if let Some((_, fs)) = self.all_mut_methods.iter().find(|((t, n), _)| *t == sn && *n == m.method.to_string()).cloned() {
                     for f in fs { let n = format!("{}.{}", x, f); if !self.assigned.contains(&n) { self.assigned.push(n); } }
                 }
-            } else if m.method == "push" && !matches!(strip_paren(&m.receiver), Expr::Field(_)) {
-                // `result.push(x)` on a local / parameter list
+            } else if (m.method == "push" || m.method == "push_str" || m.method == "next") && !matches!(strip_paren(&m.receiver), Expr::Field(_)) {
+                // `result.push(x)` on a local / parameter list or string, `it.next()` on a local iterator
                 if !self.assigned.contains(&x) { self.assigned.push(x); }
             }
         }
@@ -139,6 +139,17 @@ impl<'ast> Visit<'ast> for AssignFinder {
     }
     fn visit_pat_ident(&mut self, p: &'ast syn::PatIdent) { self.declared.push(p.ident.to_string()); }
     fn visit_expr_closure(&mut self, _: &'ast syn::ExprClosure) {}
+    fn visit_expr_reference(&mut self, r: &'ast syn::ExprReference) {
+        // `&mut x`: the variable may be modified through the reference
+        if r.mutability.is_some() { if let Some(n) = path_ident(&r.expr) { if !self.assigned.contains(&n) { self.assigned.push(n); } } }
+        syn::visit::visit_expr_reference(self, r);
+    }
+}
+
+/// does `name` occur as a path in the statements?
+struct MentionFinder { names: Vec<String>, found: bool }
+impl<'ast> Visit<'ast> for MentionFinder {
+    fn visit_expr_path(&mut self, p: &'ast syn::ExprPath) { if self.names.iter().any(|n| p.path.is_ident(n)) { self.found = true; } }
 }
 
 /// the side-effecting method call at the head of a method chain (`self.q.pop_front().unwrap()` → `self.q.pop_front()`)
@@ -148,6 +159,8 @@ pub fn effect_head(e: &Expr) -> Option<&syn::ExprMethodCall> {
         match cur {
             Expr::MethodCall(mc) => {
                 if MUTATING_METHODS.contains(&mc.method.to_string().as_str()) && self_field(&mc.receiver).is_some() { return Some(mc); }
+                // `chars.next()` on a local iterator
+                if mc.method == "next" && mc.args.is_empty() && matches!(strip_paren(&mc.receiver), Expr::Path(_)) { return Some(mc); }
                 cur = strip_paren(&mc.receiver);
             }
             Expr::Unary(u) if matches!(u.op, syn::UnOp::Not(_)) => cur = strip_paren(&u.expr),
@@ -197,6 +210,26 @@ impl<'w> FnTr<'w> {
                     if self.tr_let(l, rest, k, &mut out)? { return Ok(out); }
                 }
                 Stmt::Item(it) => return Err(self.err(it, "nested item")),
+                // `assert!(c, ..)` / `assert_eq!(a, b, ..)` / `assert_ne!(a, b, ..)`: a failing assertion is a panic (the message is dropped)
+                Stmt::Macro(m) if m.mac.path.is_ident("assert") || m.mac.path.is_ident("assert_eq") || m.mac.path.is_ident("assert_ne") => {
+                    use syn::punctuated::Punctuated;
+                    let args = m.mac.parse_body_with(Punctuated::<Expr, syn::Token![,]>::parse_terminated).map_err(|_| self.err(m, "cannot parse the arguments of the assertion"))?;
+                    let args: Vec<&Expr> = args.iter().collect();
+                    let cx = if m.mac.path.is_ident("assert") {
+                        if args.is_empty() { return Err(self.err(m, "assertion without arguments")); }
+                        let x = self.tr_expr(args[0], Some(&RTy::Bool))?;
+                        if x.ty != RTy::Bool { return Err(self.err(m, "assertion on a non-bool")); }
+                        x
+                    } else {
+                        if args.len() < 2 { return Err(self.err(m, "assertion with fewer than two arguments")); }
+                        let (l, r) = self.operands(args[0], args[1], None)?;
+                        if l.ty != r.ty || !matches!(l.ty, RTy::Int(_) | RTy::U64 | RTy::Char | RTy::Bool | RTy::Str) { return Err(self.err(m, "assertion comparing unsupported types")); }
+                        let mut x = Ex::pure(format!("decide ({} {} {})", l.a(), if m.mac.path.is_ident("assert_eq") { "=" } else { "≠" }, r.a()), RTy::Bool);
+                        x.pure = l.pure && r.pure;
+                        x
+                    };
+                    out.push(format!("let _ ← rsAssert {}", cx.a()));
+                }
                 Stmt::Macro(m) => return Err(self.err(m, "macro invocation")),
                 Stmt::Expr(e, semi) => {
                     if rest.is_empty() && semi.is_none() {
@@ -214,6 +247,21 @@ impl<'w> FnTr<'w> {
                         }
                         Expr::Assign(a) => self.tr_assign(e, &a.left, None, &a.right, &mut out)?,
                         Expr::Binary(b) if is_compound(&b.op) => self.tr_assign(e, &b.left, Some(&b.op), &b.right, &mut out)?,
+                        // `E?;` on a `Result<(), E>`
+                        Expr::Try(t) => {
+                            let inner = self.tr_expr(&t.expr, None)?;
+                            match (&inner.ty, &self.ret) { (RTy::Res(_, et), RTy::Res(_, re)) if re == et => {} _ => return Err(self.err(e, "`?` statement that is not on a `Result` with the error type of the function")) }
+                            let err_line = self.ret_line(&Ex::atom("(Except.error err)", self.ret.clone()));
+                            out.push(format!("match {} with", inner.text));
+                            out.push(format!("| Except.error err => {}", err_line));
+                            out.push("| Except.ok _ => do".to_string());
+                            let body = self.tr_stmts(rest, k)?;
+                            out.extend(indent(body, 2));
+                            return Ok(out);
+                        }
+                        Expr::MethodCall(mc) if mc.method == "for_each" => {
+                            if self.tr_for_each(e, mc, rest, k, &mut out)? { return Ok(out); }
+                        }
                         Expr::MethodCall(mc) => self.tr_method_stmt(e, mc, &mut out)?,
                         Expr::Call(_) => self.tr_call_stmt(e, &mut out)?,
                         _ => return Err(self.err(e, "unsupported expression statement")),
@@ -221,11 +269,25 @@ impl<'w> FnTr<'w> {
                 }
             }
         }
+        self.emit_local_writebacks(&mut out);
         out.extend(self.finish(None, k)?);
         Ok(out)
     }
 
+    /// end of the block a conditional mutable borrow `let x = if C { &mut a } else { &mut b };` lives in: write the copy back
+    fn emit_local_writebacks(&mut self, out: &mut Vec<String>) {
+        let d = self.depth;
+        let bs: Vec<LocalBorrow> = self.local_borrows.iter().filter(|b| b.depth == d).cloned().collect();
+        for b in bs.iter().rev() {
+            for n in [&b.cond, &b.var, &b.then_var, &b.else_var] { self.note_use(n); }
+            out.push(format!("let {} := if {} then {} else {}", b.then_var, b.cond, b.var, b.then_var));
+            out.push(format!("let {} := if {} then {} else {}", b.else_var, b.cond, b.else_var, b.var));
+        }
+        self.local_borrows.retain(|b| b.depth != d);
+    }
+
     fn tr_return(&mut self, e: &Expr, r: &syn::ExprReturn) -> Res<Vec<String>> {
+        if !self.local_borrows.is_empty() { return Err(self.err(e, "`return` while a conditional mutable borrow of a local is live")); }
         let ret = self.ret.clone();
         let v = match &r.expr {
             Some(x) => self.tr_expr(x, Some(&ret))?,
@@ -341,7 +403,9 @@ impl<'w> FnTr<'w> {
 
     /// last expression of a block (its value)
     fn tr_tail(&mut self, e: &Expr, k: &Kont) -> Res<Vec<String>> {
+        if self.local_borrows.iter().any(|b| b.depth == self.depth) { return Err(self.err(e, "a block that ends in a value while a conditional mutable borrow of a local is live")); }
         match e {
+            Expr::Match(m) if is_option_match(m) && matches!(k, Kont::Return | Kont::Value(_)) => self.tr_option_match(e, m, k),
             Expr::If(_) | Expr::Match(_) | Expr::Block(_) | Expr::Unsafe(_) if matches!(k, Kont::Return | Kont::Value(_)) => {
                 let branches = self.branches_of(e)?;
                 let (pre, branches) = branches;
@@ -371,8 +435,13 @@ impl<'w> FnTr<'w> {
                             pre.extend(self.finish(Some(v), k)?);
                             return Ok(pre);
                         }
-                        let v = self.tr_expr(e, exp.as_ref())?;
-                        self.finish(Some(v), k)
+                        self.struct_lit_pending_ok = matches!(strip_paren(e), Expr::Struct(_)) || matches!(strip_paren(e), Expr::Call(c) if c.args.len() == 1 && matches!(strip_paren(&c.args[0]), Expr::Struct(_)));
+                        let v = self.tr_expr(e, exp.as_ref());
+                        self.struct_lit_pending_ok = false;
+                        let v = v?;
+                        let mut pre: Vec<String> = self.pending.drain(..).collect();
+                        pre.extend(self.finish(Some(v), k)?);
+                        Ok(pre)
                     }
                     Kont::Value(_) => {
                         let v = self.tr_expr(e, exp.as_ref())?;
@@ -480,6 +549,86 @@ impl<'w> FnTr<'w> {
             Pat::Ident(pi) if pi.by_ref.is_none() && pi.subpat.is_none() => (pi.ident.to_string(), pi.mutability.is_some()),
             _ => return Err(self.err(l, "unsupported `let` pattern")),
         };
+        // `let x = if C { &mut a } else { &mut b };`: conditional mutable borrow of one of two struct locals
+        if let Some((c, a, b)) = cond_mut_borrow(e) {
+            if ann.is_some() || mutable { return Err(self.err(l, "annotated / `mut` conditional mutable borrow")); }
+            let av = self.lookup(&a).cloned().ok_or_else(|| self.err(l, "unknown variable"))?;
+            let bv = self.lookup(&b).cloned().ok_or_else(|| self.err(l, "unknown variable"))?;
+            if a == b || av.ty != bv.ty || !matches!(av.ty, RTy::Struct(_)) || !av.mutable || !bv.mutable || av.param.is_some() || bv.param.is_some() {
+                return Err(self.err(l, "a conditional mutable borrow is only supported between two distinct mutable locals of the same regenerated struct type"));
+            }
+            if contains_return_stmts(rest) { return Err(self.err(l, "`return`/`?` after a conditional mutable borrow in the same block")); }
+            // while the borrow may be live the two variables must not be used directly
+            let mut mf = MentionFinder { names: vec![a.clone(), b.clone()], found: false };
+            for st in rest { mf.visit_stmt(st); }
+            if mf.found { return Err(self.err(l, &format!("`{}` / `{}` is used in the same block after it was conditionally borrowed", a, b))); }
+            if !self.writebacks.is_empty() { return Err(self.err(l, "conditional mutable borrow while fields of `self` are borrowed")); }
+            let cx = self.tr_expr(c, Some(&RTy::Bool))?;
+            if cx.ty != RTy::Bool { return Err(self.err(l, "borrow condition is not bool")); }
+            let cv = self.fresh("borrow_cond");
+            out.push(bind_line(&cv, &cx));
+            self.note_use(&av.lean); self.note_use(&bv.lean);
+            let v = self.declare(l, &name, av.ty.clone(), true, None)?;
+            out.push(format!("let {} : {} := if {} then {} else {}", v, av.ty.lean(), cv, av.lean, bv.lean));
+            self.env.push(Var { rust: format!("<{}>", cv), lean: cv.clone(), ty: RTy::Bool, depth: self.depth, mutable: false, param: None, declared: true });
+            self.local_borrows.push(LocalBorrow { depth: self.depth, cond: cv, var: v, then_var: av.lean, else_var: bv.lean });
+            return Ok(false);
+        }
+        // `let p = match E { P1 => x.m1_ref(), .., _ => panic!() };`: a place inside the struct local `x`
+        if let Some((recv, sn)) = self.place_match(e) {
+            if ann.is_some() || mutable { return Err(self.err(l, "annotated / `mut` place alias")); }
+            self.place_value_of = Some((recv.clone(), sn.clone(), None));
+            let r = self.tr_ctl_value(e, Some(&RTy::Int(IntTy::Usize)));
+            let pv = self.place_value_of.take();
+            let (lines, ty) = r?;
+            if ty != RTy::Int(IntTy::Usize) { return Err(self.err(l, "internal: place index is not usize")); }
+            let field = pv.and_then(|p| p.2).ok_or_else(|| self.err(l, "no place method found in the arms"))?;
+            if self.lookup(&name).is_some() || self.place_aliases.iter().any(|p| p.rust == name) { return Err(self.err(l, "a place alias must not shadow another variable")); }
+            let iv = self.fresh(&format!("{}_index", lean_ident(&name)));
+            match compress(&lines) {
+                Some(t) => out.push(format!("let {} : Int := {}", iv, t)),
+                None => {
+                    out.push(format!("let {} : Int ← (", iv));
+                    let mut ls = indent(lines, 2);
+                    if let Some(last) = ls.last_mut() { last.push(')'); }
+                    out.extend(ls);
+                }
+            }
+            self.env.push(Var { rust: format!("<{}>", iv), lean: iv.clone(), ty: RTy::Int(IntTy::Usize), depth: self.depth, mutable: false, param: None, declared: true });
+            self.place_aliases.push(PlaceAlias { depth: self.depth, rust: name, recv, field, index_var: iv });
+            return Ok(false);
+        }
+        // `let f = |x| body;`: a local closure (only called with plain arguments; the body is translated at each call)
+        if let Expr::Closure(cl) = strip_paren(e) {
+            if cl.inputs.len() != 1 || cl.capture.is_some() || cl.asyncness.is_some() || mutable || ann.is_some() { return Err(self.err(l, "unsupported local closure form")); }
+            let (pname, pann) = match &cl.inputs[0] {
+                Pat::Ident(pi) if pi.subpat.is_none() && pi.by_ref.is_none() && pi.mutability.is_none() => (pi.ident.to_string(), None),
+                Pat::Type(pt) => match &*pt.pat { Pat::Ident(pi) if pi.subpat.is_none() => (pi.ident.to_string(), Some(self.resolve_type(&pt.ty)?)), _ => return Err(self.err(l, "unsupported closure parameter pattern")) },
+                _ => return Err(self.err(l, "unsupported closure parameter pattern")),
+            };
+            if contains_return_expr(&cl.body) { return Err(self.err(l, "`return`/`?` inside a local closure")); }
+            if !self.assigned_outer_expr(&cl.body)?.is_empty() { return Err(self.err(l, "a local closure that modifies outer variables")); }
+            let pty = match pann { Some(t) => t, None => self.closure_param_type(&pname, &cl.body).ok_or_else(|| self.err(l, "cannot determine the type of the closure parameter (annotate it)"))? };
+            if self.lookup(&name).is_some() || self.lookup(&pname).is_some() { return Err(self.err(l, "a local closure / its parameter must not shadow a variable")); }
+            self.local_closures.push((name, pname, pty, (*cl.body).clone()));
+            return Ok(false);
+        }
+        // `let x = E?;` on a `Result` (same error type as the function's)
+        if let Expr::Try(t) = e {
+            let inner = self.tr_expr(&t.expr, None)?;
+            if let RTy::Res(vt, et) = &inner.ty {
+                match &self.ret { RTy::Res(_, re) if re == et => {} _ => return Err(self.err(e, "`?` on a `Result` in a function with a different error type")) }
+                if let Some(a) = &ann { if *a != **vt { return Err(self.err(l, "annotation does not match")); } }
+                let err_line = self.ret_line(&Ex::atom("(Except.error err)", self.ret.clone()));
+                out.push(format!("match {} with", inner.text));
+                out.push(format!("| Except.error err => {}", err_line));
+                let v = self.declare(l, &name, (**vt).clone(), mutable, None)?;
+                out.push(format!("| Except.ok {} => do", v));
+                let body = self.tr_stmts(rest, k)?;
+                out.extend(indent(body, 2));
+                return Ok(true);
+            }
+        }
         // `let x = E?;`
         if let Expr::Try(t) = e {
             let inner = self.tr_expr(&t.expr, None)?;
@@ -587,6 +736,29 @@ impl<'w> FnTr<'w> {
                         out.push(format!("let {} := {{ {} with {} := {} }}", xv.lean, xv.lean, lean_ident(&fname), tmp));
                         return Ok(());
                     }
+                }
+            }
+        }
+        // `*p = e` / `*p op= e` for a place alias `p` (`let p = match .. { .. => x.m_ref(), .. }`)
+        if let Expr::Unary(u) = strip_paren(left) {
+            if let (syn::UnOp::Deref(_), Some(pn)) = (&u.op, match strip_paren(&u.expr) { Expr::Path(p) => p.path.get_ident().map(|i| i.to_string()), _ => None }) {
+                if let Some(pa) = self.place_aliases.iter().rev().find(|p| p.rust == pn).cloned() {
+                    let xv = self.lookup(&pa.recv).cloned().ok_or_else(|| self.err(e, "assignment through an unknown variable"))?;
+                    let sn = match &xv.ty { RTy::Struct(sn) => sn.clone(), _ => return Err(self.err(e, "place alias into something that is not a value of a regenerated struct")) };
+                    if !xv.mutable { return Err(self.err(e, "assignment through an immutable struct value")); }
+                    let fty = self.world.structs[&sn].fields.iter().find(|(n, _)| *n == pa.field).map(|(_, t)| t.clone()).ok_or_else(|| self.err(e, "unknown field"))?;
+                    let el = match self.struct_field_type(&fty, &sn).map_err(|m| self.err(e, &m))? { RTy::VecList(el) => *el, _ => return Err(self.err(e, "place alias into a field that is not an array")) };
+                    self.note_use(&xv.lean); self.note_use(&pa.index_var);
+                    let arr = format!("{}.{}", xv.lean, lean_ident(&pa.field));
+                    let cur = self.fresh("old");
+                    out.push(format!("let {} : {} ← vecIdx {} {}", cur, el.lean(), arr, pa.index_var));
+                    let x = self.new_value(e, &cur, &el, op, right)?;
+                    let nv = self.fresh("new");
+                    out.push(bind_line(&nv, &x));
+                    let na = self.fresh("array");
+                    out.push(format!("let {} ← vecSet {} {} {}", na, arr, pa.index_var, nv));
+                    out.push(format!("let {} := {{ {} with {} := {} }}", xv.lean, xv.lean, lean_ident(&pa.field), na));
+                    return Ok(());
                 }
             }
         }
@@ -837,6 +1009,58 @@ impl<'w> FnTr<'w> {
         }
     }
 
+    /// `match (a, b) { (Some(x), None) => .., (None, None) => .., (Some(_), Some(_)) => panic!() }`: a `match` whose patterns are
+    /// built from `Some(name)` / `Some(_)` / `None` / `_` only becomes a Lean `match` on the `Option` values (arms in the same
+    /// order; first match wins in both languages)
+    fn tr_option_match(&mut self, e: &Expr, m: &syn::ExprMatch, k: &Kont) -> Res<Vec<String>> {
+        let comps: Vec<&Expr> = match strip_paren(&m.expr) { Expr::Tuple(t) => t.elems.iter().collect(), x => vec![x] };
+        let is_tuple = matches!(strip_paren(&m.expr), Expr::Tuple(_));
+        let mut out = vec![];
+        let mut scr: Vec<(String, RTy)> = vec![];
+        for c in &comps {
+            let x = self.tr_expr(c, None)?;
+            let inner = match &x.ty { RTy::Opt(t) => (**t).clone(), _ => return Err(self.err(e, "`Some`/`None` patterns on a value that is not an `Option`")) };
+            if !x.pure { let t = self.fresh("scrutinee"); out.push(bind_line(&t, &x)); scr.push((t, inner)); } else { scr.push((x.a(), inner)); }
+        }
+        out.push(format!("match {} with", scr.iter().map(|s| s.0.clone()).collect::<Vec<_>>().join(", ")));
+        for arm in &m.arms {
+            if arm.guard.is_some() { return Err(self.err(&arm.pat, "guard on an `Option` pattern")); }
+            let pats: Vec<&Pat> = match (&arm.pat, is_tuple) {
+                (Pat::Tuple(t), true) => { if t.elems.len() != scr.len() { return Err(self.err(&arm.pat, "tuple pattern arity")); } t.elems.iter().collect() }
+                (Pat::Wild(_), true) => vec![],
+                (_, true) => return Err(self.err(&arm.pat, "unsupported pattern for a tuple scrutinee")),
+                (p, false) => vec![p],
+            };
+            let mark = self.push_scope();
+            let res = (|| -> Res<Vec<String>> {
+                let mut texts = vec![];
+                if pats.is_empty() { for _ in &scr { texts.push("_".to_string()); } }
+                for (p, (_, inner)) in pats.iter().zip(scr.iter()) {
+                    match p {
+                        Pat::Wild(_) => texts.push("_".to_string()),
+                        Pat::Ident(pi) if pi.ident == "None" && pi.subpat.is_none() => texts.push("none".to_string()),
+                        Pat::TupleStruct(ts) if ts.qself.is_none() && ts.path.is_ident("Some") && ts.elems.len() == 1 => match &ts.elems[0] {
+                            Pat::Wild(_) => texts.push("some _".to_string()),
+                            Pat::Ident(pi) if pi.subpat.is_none() && pi.by_ref.is_none() && pi.mutability.is_none() => {
+                                let v = self.declare(*p, &pi.ident.to_string(), inner.clone(), false, None)?;
+                                texts.push(format!("some {}", v));
+                            }
+                            _ => return Err(self.err(*p, "unsupported pattern inside `Some(..)`")),
+                        },
+                        _ => return Err(self.err(*p, "unsupported pattern in a `match` on `Option` patterns")),
+                    }
+                }
+                let body = match &*arm.body { Expr::Block(b) if b.label.is_none() => self.tr_stmts(&b.block.stmts, k)?, x => self.tr_tail(x, k)? };
+                let mut lines = vec![format!("| {} => do", texts.join(", "))];
+                lines.extend(indent(body, 2));
+                Ok(lines)
+            })();
+            self.pop_scope(mark);
+            out.extend(res?);
+        }
+        Ok(out)
+    }
+
     fn branch_cond(&mut self, c: &CondSrc) -> Res<Ex> {
         match c {
             CondSrc::Expr(e) => {
@@ -932,6 +1156,17 @@ impl<'w> FnTr<'w> {
     pub fn tr_ctl_value(&mut self, e: &Expr, exp: Option<&RTy>) -> Res<(Vec<String>, RTy)> {
         if contains_return_expr(e) { return Err(self.err(e, "`return`/`?` inside a value expression")); }
         if !self.assigned_outer_expr(e)?.is_empty() { return Err(self.err(e, "assignment to an outer variable / mutation of `self` inside a value expression")); }
+        if let Expr::Match(m) = e {
+            if is_option_match(m) {
+                self.value_ty.push(exp.cloned());
+                let k = Kont::Value(exp.cloned());
+                let r = self.tr_option_match(e, m, &k);
+                let ty = self.value_ty.pop().unwrap();
+                let lines = r?;
+                let ty = ty.ok_or_else(|| self.err(e, "cannot determine the type of this expression"))?;
+                return Ok((lines, ty));
+            }
+        }
         let (pre, branches) = self.branches_of(e)?;
         self.value_ty.push(exp.cloned());
         let saved_mode = self.ret_mode;
@@ -951,6 +1186,19 @@ impl<'w> FnTr<'w> {
             Expr::While(w) => return self.tr_while(e, w, rest, k, out),
             Expr::ForLoop(f) => return self.tr_for(e, f, rest, k, out),
             _ => {}
+        }
+        if let Expr::Match(m) = e {
+            if is_option_match(m) {
+                if contains_return_expr(e) { return Err(self.err(e, "`return`/`?` inside a `match` on `Option` patterns")); }
+                let vars = self.assigned_outer_expr(e)?;
+                let kk = Kont::Yield(vars.clone());
+                let lines = self.tr_option_match(e, m, &kk)?;
+                out.push(format!("let {} ← (", pat_tuple(&vars)));
+                let mut ls = indent(lines, 2);
+                if let Some(last) = ls.last_mut() { last.push(')'); }
+                out.extend(ls);
+                return Ok(false);
+            }
         }
         let (pre, branches) = self.branches_of(e)?;
         out.extend(pre);
@@ -1040,8 +1288,9 @@ impl<'w> FnTr<'w> {
         let var = match &*f.pat { Pat::Ident(pi) if pi.subpat.is_none() && pi.by_ref.is_none() && pi.mutability.is_none() => pi.ident.to_string(), _ => return Err(self.err(e, "unsupported `for` pattern")) };
         let range = match strip_paren(&f.expr) { Expr::Range(r) if matches!(r.limits, syn::RangeLimits::HalfOpen(_)) => r, _ => return Err(self.err(e, "`for` is only supported over a half-open range `a..b`")) };
         let (start, end) = match (&range.start, &range.end) { (Some(s), Some(en)) => (&**s, &**en), _ => return Err(self.err(e, "`for` range without both bounds")) };
-        // bounds are evaluated once, before the loop
-        let (sx, ex) = self.operands(start, end, None)?;
+        // bounds are evaluated once, before the loop (two untyped literals: the type is taken from the uses of the loop variable)
+        let hint = if is_untyped(start) && is_untyped(end) { self.infer_from_usage(&var, &f.body.stmts) } else { None };
+        let (sx, ex) = self.operands(start, end, hint.as_ref())?;
         if sx.ty != ex.ty { return Err(self.err(e, "range bounds of different types")); }
         self.int_of(e, &sx.ty)?;
         let mark = self.push_scope();
@@ -1205,6 +1454,55 @@ impl<'w> FnTr<'w> {
         captured
     }
 
+    /// the pattern of a list element: a variable or a tuple of variables (`(i, x)` of `enumerate()`)
+    fn bind_list_pattern<T: syn::spanned::Spanned + quote::ToTokens>(&mut self, node: &T, pat: &Pat, el: &RTy) -> Res<String> {
+        let mut pat = pat;
+        while let Pat::Reference(r) = pat { pat = &r.pat; }
+        match (pat, el) {
+            (Pat::Ident(pi), _) if pi.subpat.is_none() && pi.by_ref.is_none() && pi.mutability.is_none() => self.bind_list_element(node, &pi.ident.to_string(), el),
+            (Pat::Tuple(pt), RTy::Tuple(ts)) if pt.elems.len() == ts.len() => {
+                let mut parts = vec![];
+                for (p, t) in pt.elems.iter().zip(ts.iter()) { parts.push(self.bind_list_pattern(node, p, t)?); }
+                Ok(tuple(&parts))
+            }
+            (Pat::Wild(_), _) => Ok("_".to_string()),
+            _ => Err(self.err(node, "unsupported loop pattern")),
+        }
+    }
+
+    /// the type of an un-annotated closure parameter: the argument type (table `OPAQUE_ARGS`) of an opaque method it is passed to
+    fn closure_param_type(&self, name: &str, body: &Expr) -> Option<RTy> {
+        struct V<'a> { name: &'a str, hits: Vec<(String, usize)> }
+        impl<'a, 'ast> Visit<'ast> for V<'a> {
+            fn visit_expr_method_call(&mut self, m: &'ast syn::ExprMethodCall) {
+                for (i, a) in m.args.iter().enumerate() { if path_ident(a).as_deref() == Some(self.name) { self.hits.push((m.method.to_string(), i)); } }
+                syn::visit::visit_expr_method_call(self, m);
+            }
+        }
+        let mut v = V { name, hits: vec![] };
+        v.visit_expr(body);
+        for (m, i) in &v.hits {
+            let cands: Vec<&&str> = crate::targets::OPAQUE_ARGS.iter().filter(|(_, mm, a)| mm == m && a.len() > *i).map(|(_, _, a)| &a[*i]).collect();
+            if cands.len() == 1 { if let Ok(ty) = syn::parse_str::<syn::Type>(cands[0]) { if let Ok(t) = self.resolve_type(&ty) { return Some(t); } } }
+        }
+        None
+    }
+
+    /// the parameter type of a local closure that the variable `name` is passed to in `stmts`
+    fn closure_arg_type(&self, name: &str, stmts: &[Stmt]) -> Option<RTy> {
+        struct V<'a> { name: &'a str, fns: Vec<String> }
+        impl<'a, 'ast> Visit<'ast> for V<'a> {
+            fn visit_expr_call(&mut self, c: &'ast syn::ExprCall) {
+                if c.args.len() == 1 && path_ident(&c.args[0]).as_deref() == Some(self.name) { if let Some(f) = path_ident(&c.func) { self.fns.push(f); } }
+                syn::visit::visit_expr_call(self, c);
+            }
+        }
+        let mut v = V { name, fns: vec![] };
+        for s in stmts { v.visit_stmt(s); }
+        for f in &v.fns { if let Some(c) = self.local_closures.iter().rev().find(|c| c.0 == *f) { return Some(c.2.clone()); } }
+        None
+    }
+
     /// binds the element variable `var` of a list of `el`s: a packed struct value is destructured into a flattened struct
     /// local (`(mv_bits, mv_mvvlva)`), a primitive is a variable; returns the Lean pattern
     fn bind_list_element<T: syn::spanned::Spanned + quote::ToTokens>(&mut self, node: &T, var: &str, el: &RTy) -> Res<String> {
@@ -1223,7 +1521,7 @@ impl<'w> FnTr<'w> {
                 }
                 Ok(tuple(&names))
             }
-            RTy::Int(_) | RTy::U64 | RTy::Bool | RTy::Char => self.declare(node, var, el.clone(), false, None),
+            RTy::Int(_) | RTy::U64 | RTy::Bool | RTy::Char | RTy::Str => self.declare(node, var, el.clone(), false, None),
             _ => Err(self.err(node, "iteration over a list of this element type is unsupported")),
         }
     }
@@ -1231,15 +1529,45 @@ impl<'w> FnTr<'w> {
     /// `for &x in list { body }`: a definition by STRUCTURAL recursion on the list (no fuel); the loop state is the outer
     /// variables the body assigns (fields of `&mut self` included)
     fn tr_for_list(&mut self, e: &Expr, f: &syn::ExprForLoop, rest: &[Stmt], k: &Kont, out: &mut Vec<String>) -> Res<bool> {
-        let mut pat = &*f.pat;
+        self.tr_list_loop(e, &f.pat, &f.expr, &f.body, false, rest, k, out)
+    }
+
+    /// `ITER.for_each(|pat| { body })` as a statement: the same as `for pat in ITER { body }` (a `return` inside the closure would
+    /// only end the current item: unsupported)
+    fn tr_for_each(&mut self, e: &Expr, mc: &syn::ExprMethodCall, rest: &[Stmt], k: &Kont, out: &mut Vec<String>) -> Res<bool> {
+        if mc.args.len() != 1 || mc.turbofish.is_some() { return Err(self.err(e, "`for_each` takes one closure")); }
+        let cl = match &mc.args[0] { Expr::Closure(c) if c.inputs.len() == 1 && c.capture.is_none() && c.asyncness.is_none() => c, _ => return Err(self.err(e, "`for_each` argument is not a plain closure")) };
+        let body = match strip_paren(&cl.body) { Expr::Block(b) if b.label.is_none() => &b.block, _ => return Err(self.err(e, "`for_each` closure body must be a block")) };
+        if contains_return_stmts(&body.stmts) { return Err(self.err(e, "`return`/`?` inside a `for_each` closure")); }
+        self.tr_list_loop(e, &cl.inputs[0], &mc.receiver, body, true, rest, k, out)
+    }
+
+    #[allow(clippy::too_many_arguments)]
+    fn tr_list_loop(&mut self, e: &Expr, pat0: &Pat, iter: &Expr, fbody: &syn::Block, is_closure: bool, rest: &[Stmt], k: &Kont, out: &mut Vec<String>) -> Res<bool> {
+        struct F<'a> { body: &'a syn::Block }
+        let f = F { body: fbody };
+        let mut pat = pat0;
         while let Pat::Reference(r) = pat { pat = &r.pat; }
-        let var = match pat { Pat::Ident(pi) if pi.subpat.is_none() && pi.by_ref.is_none() && pi.mutability.is_none() => pi.ident.to_string(), _ => return Err(self.err(e, "unsupported `for` pattern")) };
         let mut bf = BreakFinder { found: false };
         bf.visit_block(&f.body);
         if bf.found { return Err(self.err(e, "`break`/`continue`")); }
-        let has_return = contains_return_stmts(&f.body.stmts);
-        let lx = self.tr_expr(&f.expr, None)?;
-        let el = match &lx.ty { RTy::VecList(el) if lx.pure && lx.atomic => (**el).clone(), _ => return Err(self.err(e, "`for` over something that is neither a range nor a list variable")) };
+        let has_return = !is_closure && contains_return_stmts(&f.body.stmts);
+        // `for x in [a, b]` over an array literal of untyped integers: the element type is the parameter type of a local closure `x` is passed to
+        let hint = match (strip_paren(iter), pat) {
+            (Expr::Array(_), Pat::Ident(pi)) => self.closure_arg_type(&pi.ident.to_string(), &f.body.stmts).map(|t| RTy::VecList(Box::new(t))),
+            _ => None,
+        };
+        let lx = self.tr_expr(iter, hint.as_ref())?;
+        let el = match &lx.ty { RTy::VecList(el) | RTy::Iter(el) => (**el).clone(), _ => return Err(self.err(e, "`for` over something that is neither a range nor a list / iterator")) };
+        // (an iterator expression is evaluated once, before the loop)
+        let lx = if lx.pure && lx.atomic { lx } else {
+            let t = self.fresh("items");
+            let lty = RTy::VecList(Box::new(el.clone()));
+            self.note_ty_dep(&lty);
+            out.push(match &lx.m { Some(m) => format!("let {} : {} ← {}", t, lty.lean(), m), None => format!("let {} : {} := {}", t, lty.lean(), lx.text) });
+            self.env.push(Var { rust: format!("<{}>", t), lean: t.clone(), ty: lty.clone(), depth: self.depth, mutable: false, param: None, declared: true });
+            Ex::atom(t, lty)
+        };
         let mut af = self.assign_finder();
         af.visit_block(&f.body);
         let state = self.assigned_outer(e, af)?;
@@ -1252,7 +1580,7 @@ impl<'w> FnTr<'w> {
         if has_return { self.ret_mode = RetMode::Ctl; }
         let mark = self.push_scope();
         let body_res = (|| -> Res<(String, Vec<String>)> {
-            let pat_text = self.bind_list_element(e, &var, &el)?;
+            let pat_text = self.bind_list_pattern(e, pat, &el)?;
             let kk = Kont::LoopNext { call: "<CALL>".to_string(), state: state.clone() };
             let lines = self.tr_block(&f.body, &kk)?;
             Ok((pat_text, lines))
@@ -1432,6 +1760,35 @@ impl<'w> FnTr<'w> {
                     out.push(format!("let {} ← {}", pat_tuple(&names), m));
                     return Ok(());
                 }
+                // `s.push(c);` / `s.push_str(&t);` on a mutable local string
+                if let (RTy::Str, true) = (&xv.ty, method == "push" || method == "push_str") {
+                    if !xv.mutable || xv.param.is_some() { return Err(self.err(e, "`push` on a string that is not a mutable local")); }
+                    if args.len() != 1 { return Err(self.err(e, "wrong number of arguments")); }
+                    let want = if method == "push" { RTy::Char } else { RTy::Str };
+                    // (an `if` / `match` argument with a panicking condition is bound first)
+                    let x = match strip_paren(args[0]) {
+                        a @ (Expr::If(_) | Expr::Match(_)) => {
+                            let (lines, ty) = self.tr_ctl_value(a, Some(&want))?;
+                            match compress(&lines) {
+                                Some(t) => Ex::pure(t, ty),
+                                None => {
+                                    let t = self.fresh("pushed");
+                                    out.push(format!("let {} : {} ← (", t, ty.lean()));
+                                    let mut ls = indent(lines, 2);
+                                    if let Some(last) = ls.last_mut() { last.push(')'); }
+                                    out.extend(ls);
+                                    Ex::atom(t, ty)
+                                }
+                            }
+                        }
+                        a => self.tr_expr(a, Some(&want))?,
+                    };
+                    if x.ty != want { return Err(self.err(e, &format!("`{}` of {} onto a string", method, x.ty.rust()))); }
+                    self.note_use(&xv.lean);
+                    let rhs = if method == "push" { format!("{} ++ [{}]", xv.lean, x.text) } else { format!("{} ++ {}", xv.lean, x.a()) };
+                    match &x.m { _ if x.pure => out.push(format!("let {} : List Char := {}", xv.lean, rhs)), _ => { let t = self.fresh("pushed"); out.push(bind_line(&t, &x)); out.push(format!("let {} : List Char := {} ++ {}", xv.lean, xv.lean, if method == "push" { format!("[{}]", t) } else { t })); } }
+                    return Ok(());
+                }
                 // `result.push(x);` on a list of packed struct values (local / `&mut` parameter)
                 if let (true, "push") = (crate::is_packed_list(&xv.ty), method.as_str()) {
                     if !xv.mutable { return Err(self.err(e, "`push` on an immutable list")); }
@@ -1565,7 +1922,7 @@ pub fn branch_tails(e: &Expr) -> Vec<&Expr> {
 }
 
 /// operands the variable `name` is combined with by an arithmetic / comparison / bit operator
-struct UsageFinder { name: String, others: Vec<Expr> }
+struct UsageFinder { name: String, others: Vec<Expr>, call_args: Vec<(Option<String>, String, usize)> }
 impl<'ast> Visit<'ast> for UsageFinder {
     fn visit_expr_binary(&mut self, b: &'ast syn::ExprBinary) {
         let ok = !matches!(b.op, BinOp::And(_) | BinOp::Or(_) | BinOp::Shl(_) | BinOp::Shr(_) | BinOp::ShlAssign(_) | BinOp::ShrAssign(_));
@@ -1576,6 +1933,18 @@ impl<'ast> Visit<'ast> for UsageFinder {
         }
         syn::visit::visit_expr_binary(self, b);
     }
+    fn visit_expr_call(&mut self, c: &'ast syn::ExprCall) {
+        // `f(.., name, ..)`: recorded as the pseudo operand `f::<i>` (resolved against the registered functions)
+        if let Expr::Path(p) = &*c.func {
+            if let Some(last) = p.path.segments.last() {
+                let ns = if p.path.segments.len() == 2 { Some(p.path.segments[0].ident.to_string()) } else { None };
+                for (i, a) in c.args.iter().enumerate() {
+                    if matches!(strip_paren(a), Expr::Path(q) if q.path.is_ident(&self.name)) { self.call_args.push((ns.clone(), last.ident.to_string(), i)); }
+                }
+            }
+        }
+        syn::visit::visit_expr_call(self, c);
+    }
     fn visit_expr_closure(&mut self, _: &'ast syn::ExprClosure) {}
 }
 
@@ -1583,7 +1952,7 @@ impl<'w> FnTr<'w> {
     /// the type of the first typed operand (variable, constant, cast) the variable `name` is combined with in `stmts`;
     /// only a HINT for untyped literals: every use is type-checked when it is translated
     pub fn infer_from_usage(&self, name: &str, stmts: &[Stmt]) -> Option<RTy> {
-        let mut f = UsageFinder { name: name.to_string(), others: vec![] };
+        let mut f = UsageFinder { name: name.to_string(), others: vec![], call_args: vec![] };
         for s in stmts { f.visit_stmt(s); }
         for o in &f.others {
             let t = match strip_paren(o) {
@@ -1599,7 +1968,38 @@ impl<'w> FnTr<'w> {
             };
             if let Some(t) = t { if matches!(t, RTy::Int(_) | RTy::U64) { return Some(t); } }
         }
+        // an argument of a registered free function: the type of that parameter
+        for (ns, fname, i) in &f.call_args {
+            // `char::from_digit(name, 10)` takes a `u32`
+            if ns.as_deref() == Some("char") && fname == "from_digit" && *i == 0 { return Some(RTy::Int(IntTy::U32)); }
+            let ns = if ns.as_deref() == Some("Self") { self.target.container.ns().map(|s| s.to_string()) } else { ns.clone() };
+            if let Some(info) = self.world.fns.get(&(ns, fname.clone())) {
+                if info.rust_params.first().map(|s| s == "self").unwrap_or(false) { continue; }
+                if let Some(p) = info.params.iter().find(|p| p.origin == Origin::Param(*i)) { if matches!(p.ty, RTy::Int(_) | RTy::U64) { return Some(p.ty.clone()); } }
+            }
+        }
         None
+    }
+
+    /// `match E { P1 => x.m1_ref(), .., _ => panic!() }` where every arm is a place method (`What::PlaceFn`) of the same mutable
+    /// struct local `x` or `panic!()`: (x, its struct)
+    pub fn place_match(&self, e: &Expr) -> Option<(String, String)> {
+        let m = match strip_paren(e) { Expr::Match(m) => m, _ => return None };
+        let mut found: Option<(String, String)> = None;
+        for arm in &m.arms {
+            match strip_paren(&arm.body) {
+                Expr::Macro(mm) if mm.mac.path.is_ident("panic") || mm.mac.path.is_ident("unreachable") => {}
+                Expr::MethodCall(mc) => {
+                    let x = match strip_paren(&mc.receiver) { Expr::Path(p) => p.path.get_ident().map(|i| i.to_string())?, _ => return None };
+                    let v = self.lookup(&x)?;
+                    let sn = match &v.ty { RTy::Struct(sn) if v.mutable => sn.clone(), _ => return None };
+                    if !self.world.places.contains_key(&(Some(sn.clone()), mc.method.to_string())) { return None; }
+                    match &found { None => found = Some((x, sn)), Some((fx, _)) if *fx == x => {} _ => return None }
+                }
+                _ => return None,
+            }
+        }
+        found
     }
 
     /// the struct a literal `S { .. }` builds if `S` is a registered struct whose values are FLATTENED in this function
@@ -1657,6 +2057,37 @@ impl<'w> FnTr<'w> {
 }
 
 fn out_pre() -> Vec<String> { vec![] }
+
+/// a `match` with at least one `Some(..)` / `None` pattern
+pub fn is_option_match(m: &syn::ExprMatch) -> bool {
+    fn has(p: &Pat) -> bool {
+        match p {
+            Pat::Tuple(t) => t.elems.iter().any(has),
+            Pat::Ident(pi) => pi.ident == "None",
+            Pat::TupleStruct(ts) => ts.path.is_ident("Some"),
+            _ => false,
+        }
+    }
+    m.arms.iter().any(|a| has(&a.pat))
+}
+
+/// `if C { &mut a } else { &mut b }` with plain variables `a`, `b`: (C, a, b)
+pub fn cond_mut_borrow(e: &Expr) -> Option<(&Expr, String, String)> {
+    fn single(b: &syn::Block) -> Option<String> {
+        match b.stmts.as_slice() {
+            [Stmt::Expr(Expr::Reference(r), None)] if r.mutability.is_some() => match strip_paren(&r.expr) { Expr::Path(p) => p.path.get_ident().map(|i| i.to_string()), _ => None },
+            _ => None,
+        }
+    }
+    match strip_paren(e) {
+        Expr::If(i) if !matches!(&*i.cond, Expr::Let(_)) => {
+            let a = single(&i.then_branch)?;
+            let b = match &i.else_branch { Some((_, eb)) => match &**eb { Expr::Block(bl) if bl.label.is_none() => single(&bl.block)?, _ => return None }, None => return None };
+            Some((&i.cond, a, b))
+        }
+        _ => None,
+    }
+}
 
 pub fn strip_paren(e: &Expr) -> &Expr {
     match e { Expr::Paren(p) => strip_paren(&p.expr), Expr::Group(p) => strip_paren(&p.expr), _ => e }
